@@ -233,11 +233,11 @@ static void run_nosilent(int which)
     static cfg_t cfgs[1200];
     int nc = 0;
     if (which & 1) {
-        add_cfgs(cfgs, &nc, 1200, EC_BACKEND_LIBERASURECODE_RS_VAND, 0);
+        add_cfgs(cfgs, &nc, 1200, EC_BACKEND_LIBERASURECODE_RS_VAND, MO.thorough);
         nc += cfgs_xor(cfgs + nc, 1200 - nc);
     }
     if (which & 2) {
-        add_cfgs(cfgs, &nc, 1200, EC_BACKEND_ISA_L_RS_VAND, 0);
+        add_cfgs(cfgs, &nc, 1200, EC_BACKEND_ISA_L_RS_VAND, MO.thorough);
         add_cfgs(cfgs, &nc, 1200, EC_BACKEND_ISA_L_RS_CAUCHY, 0);
     }
     int exh_n = MO.thorough ? 15 : 10;
@@ -259,7 +259,7 @@ static void run_nosilent(int which)
             } else {
                 /* the band tol < |E| <= m (+1) completely when small, sampled otherwise; plus random subsets of every size */
                 int lo = cfg_tol(&c) + 1, hi = c.m + 1 < n ? c.m + 1 : n;
-                int cap = MO.thorough ? 20000 : 1500;
+                int cap = MO.thorough ? 4000 : 1500;
                 for (int sz = lo; sz <= hi; sz++) {
                     if (binom(n, sz) <= (uint64_t)(cap / 3)) {
                         int cb[32]; comb_first(cb, sz);
@@ -783,7 +783,7 @@ static void run_canonical(void)
     int inited = 0;
     if (mon_case_all("rs_vand|init-tables")) { in(4, 2); inited = 1; mon_end(); }
     if (!inited) return;
-    int sub_n = MO.thorough ? 16 : 12;
+    int sub_n = MO.thorough ? 18 : 12;
     for (int k = 1; k <= 31; k++) for (int m = 1; k + m <= 32; m++) {
         if (mon_case("rs_vand|k=%d,m=%d|generator", k, m)) {
             int *g = mk(k, m);
@@ -808,7 +808,7 @@ static void run_canonical(void)
                     mon_count("shapes_with_all_row_subsets", 1);
                 } else {
                     rng_t r; rng_case(&r);
-                    int ns = MO.thorough ? 60 : 12;
+                    int ns = MO.thorough ? 2000 : 12;
                     for (int s = 0; s < ns; s++) {
                         int perm[32]; for (int i = 0; i < n; i++) perm[i] = i;
                         rng_shuffle(&r, perm, n);
